@@ -37,6 +37,13 @@ pub struct C15Plan {
     /// Short-read knob for the stream's source (0 = unlimited).
     #[serde(default)]
     pub max_chunk: usize,
+    /// Non-empty = BIT-contiguous stream: picture i is followed by
+    /// min(stuff_bits[i], bits to the next byte boundary) zero bits and then directly
+    /// by the next start code, which may therefore begin in the middle of a byte
+    /// (H.263 start codes are only optionally byte aligned).  Empty = every picture
+    /// padded to a byte boundary.
+    #[serde(default)]
+    pub stuff_bits: Vec<u8>,
 }
 
 fn viol(class: &str, detail: String) -> Option<Violation> {
@@ -47,9 +54,31 @@ pub fn exec_c15(plan: &C15Plan, st: &mut Stats) -> Option<Violation> {
     let n = plan.pics.len();
     let mut concat = Vec::new();
     let mut ends = Vec::new();
-    for p in &plan.pics {
-        concat.extend_from_slice(&p.bytes);
-        ends.push(concat.len());
+    if plan.stuff_bits.is_empty() {
+        for p in &plan.pics {
+            concat.extend_from_slice(&p.bytes);
+            ends.push(concat.len());
+        }
+    } else {
+        st.inc("probe.bit_contiguous_stream");
+        let mut w = BitWriter::default();
+        for (i, p) in plan.pics.iter().enumerate() {
+            let nbits = p.spec.as_ref().map(|s| encode(s).1.total_bits).unwrap_or(p.bytes.len() * 8).min(p.bytes.len() * 8);
+            for b in 0..nbits {
+                w.put(((p.bytes[b / 8] >> (7 - b % 8)) & 1) as u32, 1);
+            }
+            let realign = (8 - w.pos() % 8) % 8;
+            let s = (plan.stuff_bits.get(i).copied().unwrap_or(0) as usize).min(realign);
+            if s < realign {
+                st.inc("probe.next_start_code_not_byte_aligned");
+            }
+            w.put(0, s as u8);
+            ends.push((w.pos() + 7) / 8);
+        }
+        concat = w.bytes;
+        // the bytes are complete only up to the last written bit; pad is implicit zeros
+        let last = ends.len() - 1;
+        ends[last] = concat.len();
     }
     let mut a = Slot::new(plan.opts);
     if plan.max_chunk > 0 {
@@ -260,6 +289,7 @@ pub fn gen_c15(rng: &mut Rng, tier: Tier) -> C15Plan {
         extra_calls: 1 + rng.usize(2),
         assign,
         max_chunk: *rng.pick(&[0usize, 0, 0, 1, 2, 5]),
+        stuff_bits: if rng.chance(1, 3) { (0..n).map(|_| rng.below(9) as u8).collect() } else { vec![] },
     }
 }
 
@@ -354,6 +384,8 @@ impl Property for C15 {
             "next_picture_of_another_size",
             "call_after_last_picture_reports_end_of_data",
             "two_decoders_on_one_reader",
+            "bit_contiguous_stream",
+            "next_start_code_not_byte_aligned",
         ]
     }
 }
